@@ -57,9 +57,13 @@ structure Cfg where
   inclCohort : Bool
   /-- start events of a sub-process stay `activated` after the first activation (re-entry completes at once) -/
   subStartSticky : Bool
+  /-- scheduling variant of the code (not a deviation): inclusive gateways re-evaluate their cohort as soon as
+      a sibling token terminates, before tokens released in the same step have travelled on. The real engine
+      exhibits both orders (tracker notification races with the released token). -/
+  eagerSettle : Bool := false
 deriving Repr, BEq, DecidableEq
 
-def Cfg.ideal : Cfg := ⟨false, false, false, false⟩
+def Cfg.ideal : Cfg := ⟨false, false, false, false, false⟩
 
 inductive Obs where
   | req (node : String)
@@ -92,6 +96,8 @@ structure St where
   parked  : List Tok := []
   /-- parent tokens inside a sub-process node, with whether the inner start has been triggered -/
   subs    : List Tok := []
+  /-- sub-process nodes whose (single) completion monitor has already fired -/
+  subFired : List String := []
   /-- start / end nodes already `activated` -/
   activated : List String := []
   /-- tracker picture: token ↦ node recorded as its origin -/
@@ -137,6 +143,11 @@ def evalFlows (p : Proc) (s : St) (fls : List String) (unconditional : Bool) : L
 
 def flowDst (p : Proc) (fl : String) : String := (p.flow? fl).map (·.dst) |>.getD "?"
 
+/-- `handleAdditionalSequenceFlow` for each flow: a fresh token id per forked flow, in list order -/
+def forkToks (p : Proc) (s : St) (fls : List String) : List Tok × St :=
+  fls.foldl (fun (acc, s) fl =>
+    (acc ++ [({ fid := s.nextFid, node := flowDst p fl } : Tok)], { s with nextFid := s.nextFid + 1 })) ([], s)
+
 /-- The `flowAction` branch of `flow.Start`: the token `t` leaves node `t.node` through `fls`.
 Returns the tokens to continue with (the token itself first if it moves) and the new state.
 `stay = true` means the token did not move and the loop calls `NextAction` again. -/
@@ -154,14 +165,12 @@ def selectFlows (cfg : Cfg) (p : Proc) (s : St) (t : Tok) (fls : List String) (u
       if cfg.firstFlowDecides && !firstOk then
         -- D1: the current token stays; every effective flow is forked
         let s := s.cause "first_flow_not_effective"
-        let (toks, s) := (e0 :: es).foldl (fun (acc, s) fl =>
-          (acc ++ [({ fid := s.nextFid, node := flowDst p fl } : Tok)], { s with nextFid := s.nextFid + 1 })) ([], s)
+        let (toks, s) := forkToks p s (e0 :: es)
         let s := s.recordFlow p t.node (toks.map (·.fid))
         (toks, true, s)
       else
         let me : Tok := { t with node := flowDst p e0 }
-        let (toks, s) := es.foldl (fun (acc, s) fl =>
-          (acc ++ [({ fid := s.nextFid, node := flowDst p fl } : Tok)], { s with nextFid := s.nextFid + 1 })) ([], s)
+        let (toks, s) := forkToks p s es
         let s := s.recordFlow p t.node (t.fid :: toks.map (·.fid))
         (me :: toks, false, s)
 
@@ -228,8 +237,7 @@ def igRelease (p : Proc) (s : St) (n : Node) (g : IgSt) : List Tok × St :=
         | [] => (acc, s.recordTerm f)
         | e0 :: es =>
           let me : Tok := { fid := f, node := flowDst p e0 }
-          let (toks, s) := es.foldl (fun (acc, s) fl =>
-            (acc ++ [({ fid := s.nextFid, node := flowDst p fl } : Tok)], { s with nextFid := s.nextFid + 1 })) ([], s)
+          let (toks, s) := forkToks p s es
           let s := s.recordFlow p n.id (f :: toks.map (·.fid))
           (acc ++ me :: toks, s)) ([], s)
 
@@ -281,7 +289,11 @@ def arrive (cfg : Cfg) (p : Proc) (s : St) (t : Tok) : List Tok × St :=
       if cur.length == n.ins.length || (n.ins.isEmpty && cur.length == 1) then
         let s := { s with pg := s.pg.filter (·.1 != n.id) }
         let replies := Gateway.distribute cur.length n.outs.length
-        (cur.zip replies).foldl (fun (acc, s) (f, r) =>
+        let pairs := cur.zip replies
+        -- the consumed tokens terminate concurrently with the released ones travelling on: under
+        -- `eagerSettle` their termination is seen first
+        let pairs := if cfg.eagerSettle then pairs.filter (·.2 == .complete) ++ pairs.filter (·.2 != .complete) else pairs
+        pairs.foldl (fun (acc, s) (f, r) =>
           match r with
           | .complete => (acc, (s.emit (.complete n.id)).recordTerm f)
           | .flows lo hi =>
@@ -297,29 +309,36 @@ def arrive (cfg : Cfg) (p : Proc) (s : St) (t : Tok) : List Tok × St :=
     | .sub =>
       if s.subs.any (·.node == n.id) then ([], s.oos s!"two concurrent activations of sub-process {n.id}")
       else
-        let s := { s with subs := s.subs ++ [t] }
         let starts := p.nodes.filter (fun m => m.parent == n.id && m.kind == .start)
-        let s := if cfg.subStartSticky then
-            (if starts.any (fun m => s.activated.contains m.id) then s.cause "sub_reentry" else s)
+        -- the code creates the completion monitor once per sub-process node and never re-arms the inner start
+        -- events: on a second activation the inner tokens complete at once and nobody announces the end, so the
+        -- parent token waits for ever
+        let again := cfg.subStartSticky && s.subFired.contains n.id
+        let s := if again then { (s.cause "sub_reentry") with parked := s.parked ++ [t] }
+                 else { s with subs := s.subs ++ [t] }
+        let s := if cfg.subStartSticky then s
           else { s with activated := s.activated.filter (fun a => !starts.any (·.id == a)) }
         let (toks, s) := starts.foldl (fun (acc, s) m =>
           (acc ++ [({ fid := s.nextFid, node := m.id } : Tok)], { s with nextFid := s.nextFid + 1 })) ([], s)
         (toks, s)
     | _ => ([], { s with parked := s.parked ++ [t] })
 
-/-- after the work list is empty: let inclusive gateways synchronise and finished sub-processes return -/
-def settle (cfg : Cfg) (p : Proc) (s : St) : List Tok × St :=
-  -- inclusive gateways, in program order
+/-- let one inclusive gateway that may synchronise do so (`trySync` + probing report) -/
+def settleIncl (cfg : Cfg) (p : Proc) (s : St) (work : List Tok) : Option (List Tok) × St :=
   let igs := p.nodes.filter (·.kind == .incl)
-  let (r, s) := igs.foldl (fun (acc : Option (List Tok × St) × St) n =>
+  igs.foldl (fun (acc : Option (List Tok) × St) n =>
     match acc with
     | (some x, s) => (some x, s)
     | (none, s) =>
       let g := igGet s n.id
-      let (ready, s') := igReady cfg p s n g []
-      if ready then (some (igRelease p s' n g), s') else (none, s')) (none, s)
+      let (ready, s') := igReady cfg p s n g work
+      if ready then (let (toks, s'') := igRelease p s' n g; (some toks, s'')) else (none, s')) (none, s)
+
+/-- after the work list is empty: let inclusive gateways synchronise and finished sub-processes return -/
+def settle (cfg : Cfg) (p : Proc) (s : St) : List Tok × St :=
+  let (r, s) := settleIncl cfg p s []
   match r with
-  | some x => x
+  | some x => (x, s)
   | none =>
     -- sub-processes whose inner scope is empty
     let done := s.subs.find? (fun t => !liveInScope p s t.node [])
@@ -340,7 +359,8 @@ def settle (cfg : Cfg) (p : Proc) (s : St) : List Tok × St :=
           if stay then ([u] ++ toks, s) else (toks, s)
         | _, _ => ([], s)
       else
-        let s := { s with subs := s.subs.filter (· != t) }
+        let s := { s with subs := s.subs.filter (· != t),
+                          subFired := if s.subFired.contains t.node then s.subFired else t.node :: s.subFired }
         match p.node? t.node with
         | none => ([], s)
         | some n =>
@@ -357,7 +377,11 @@ def runWork (cfg : Cfg) (p : Proc) : Nat → List Tok → St → St
     else runWork cfg p fuel toks s'
   | fuel + 1, t :: rest, s =>
     let (toks, s) := arrive cfg p s t
-    runWork cfg p fuel (rest ++ toks) s
+    if cfg.eagerSettle then
+      match settleIncl cfg p s (rest ++ toks) with
+      | (some rel, s) => runWork cfg p fuel (rel ++ rest ++ toks) s
+      | (none, s) => runWork cfg p fuel (rest ++ toks) s
+    else runWork cfg p fuel (rest ++ toks) s
 
 def fuelFor (p : Proc) : Nat := 200 * (p.nodes.length + 5)
 
